@@ -404,7 +404,7 @@ def many_workers_stage(c):
   thread of that pool)."""
   import threading
   from vcheck import deploy
-  from vizier._src.service import vizier_service_pb2 as vsp
+  from vizier._src.service import study_pb2, vizier_service_pb2 as vsp
   n_workers = 40
   d = deploy.Deployment('grpc', 'ram', hosted=True)
   try:
@@ -433,6 +433,44 @@ def many_workers_stage(c):
                   '%d workers asked one study of a gRPC server for a suggestion at the same moment: %d got a finished operation, %d an error, %d had not returned after 45 s (in-process all return)' % (
                       n_workers, len(ok), len(errs) + len([x for x in done if x[2]]), n_workers - len(done) - len(errs)),
                   {'deployment': 'grpc', 'workers': n_workers, 'returned': len(done), 'errors': errs[:3]})
+  finally:
+    d.close()
+  # eight workers, each on its OWN study, three rounds, against the split deployment: their Pythia computations
+  # overlap (different studies take different operation locks); in-process and behind one server all of them are served
+  d = deploy.Deployment('split', 'ram', hosted=True)
+  try:
+    n = 8
+    d.script.alg = {'kind': 'ok', 'sugg': [{'params': 9, 'md': []}], 'delta': []}
+    studies = [svc.create_study(d.api, 'o', 'own%d' % i).name for i in range(n)]
+    bad = []
+    for rnd in range(3):
+      barrier = threading.Barrier(n)
+      res = [None] * n
+
+      def work2(i):
+        try:
+          barrier.wait(timeout=30)
+          op = d.api.SuggestTrials(vsp.SuggestTrialsRequest(parent=studies[i], suggestion_count=1, client_id='w'), timeout=60)
+          res[i] = ('op', bool(op.done), op.error.message[:120] if op.HasField('error') else '')
+        except Exception as e:  # pylint: disable=broad-except
+          res[i] = ('raised', type(e).__name__, str(e)[:120])
+      ts = [threading.Thread(target=work2, args=(i,), daemon=True) for i in range(n)]
+      for t in ts:
+        t.start()
+      for t in ts:
+        t.join(timeout=60)
+      bad += [(rnd, i, r) for i, r in enumerate(res) if r != ('op', True, '')]
+      for i in range(n):       # complete what was handed out, so that the next round needs the algorithm again
+        for t in d.api.ListTrials(vsp.ListTrialsRequest(parent=studies[i])).trials:
+          if t.state == study_pb2.Trial.State.ACTIVE:
+            d.api.CompleteTrial(vsp.CompleteTrialRequest(name=t.name, final_measurement=svcreal.meas_proto([1, True])))
+    c.traces += 1
+    c.count(1, ('c08-parallel-studies',), kind='c08-parallel-studies')
+    if bad:
+      c.prop_fail('concurrent-suggests-on-different-studies-fail:split',
+                  'eight workers on eight studies asked the split deployment for a suggestion at the same moment (3 rounds): %d of 24 calls did not get a finished operation without error, e.g. round %d study %d: %s' % (
+                      len(bad), bad[0][0], bad[0][1], bad[0][2]),
+                  {'deployment': 'split', 'failures': [list(b) for b in bad[:6]]})
   finally:
     d.close()
 
